@@ -10,6 +10,16 @@ import (
 	"verifharness/internal/genlab"
 )
 
+// craftedSpecs: small documents for feature interactions that earlier runs
+// of the PRNG document generator found to matter (kept as regressions).
+var craftedSpecs = []struct{ name, spec string }{
+	{"webhook-with-global-security", `{"openapi":"3.1.0","info":{"title":"t","version":"1"},"paths":{},"security":[{"k":[]}],"webhooks":{"e":{"post":{"operationId":"hook","responses":{"200":{"description":"ok"}}}}},"components":{"securitySchemes":{"k":{"type":"apiKey","in":"header","name":"X-Key"}}}}`},
+	{"webhook-with-operation-security", `{"openapi":"3.1.0","info":{"title":"t","version":"1"},"paths":{},"webhooks":{"e":{"post":{"operationId":"hook","security":[{"k":[]}],"responses":{"200":{"description":"ok"}}}}},"components":{"securitySchemes":{"k":{"type":"http","scheme":"bearer"}}}}`},
+	{"paths-and-webhooks-share-security", `{"openapi":"3.1.0","info":{"title":"t","version":"1"},"security":[{"k":[]}],"paths":{"/a":{"get":{"operationId":"a","responses":{"200":{"description":"ok"}}}}},"webhooks":{"e":{"post":{"operationId":"hook","security":[],"responses":{"200":{"description":"ok"}}}}},"components":{"securitySchemes":{"k":{"type":"apiKey","in":"query","name":"key"}}}}`},
+	{"two-pattern-responses-same-schema", `{"openapi":"3.0.3","info":{"title":"t","version":"1"},"paths":{"/a":{"get":{"operationId":"a","responses":{"200":{"description":"ok"},"4XX":{"description":"f","content":{"application/json":{"schema":{"$ref":"#/components/schemas/Fault"}}}},"5XX":{"description":"f","content":{"application/json":{"schema":{"$ref":"#/components/schemas/Fault"}}}}}}}},"components":{"schemas":{"Fault":{"type":"object","properties":{"m":{"type":"string"}}}}}}`},
+	{"pattern-and-default-response-same-schema", `{"openapi":"3.0.3","info":{"title":"t","version":"1"},"paths":{"/a":{"get":{"operationId":"a","responses":{"200":{"description":"ok"},"4XX":{"description":"f","content":{"application/json":{"schema":{"$ref":"#/components/schemas/Fault"}}}},"default":{"description":"f","content":{"application/json":{"schema":{"$ref":"#/components/schemas/Fault"}}}}}}},"/b":{"get":{"operationId":"b","responses":{"200":{"description":"ok"}}}}},"components":{"schemas":{"Fault":{"type":"object","properties":{"m":{"type":"string"}}}}}}`},
+}
+
 var smallSpecs = []string{"examples/petstore.yml", "positive/webhooks.json", "positive/security.json"}
 
 func corpusJob(path string, fs FeatSet) *Job {
@@ -121,6 +131,11 @@ func workload(r *ev.Run) ([]*Job, map[string]any, error) {
 	jobs = append(jobs, hj...)
 	for k, v := range hinfo {
 		info[k] = v
+	}
+	for _, c := range craftedSpecs {
+		for _, fs := range []FeatSet{fixed[1], fixed[0]} {
+			jobs = append(jobs, &Job{Kind: "crafted", ID: "crafted/" + c.name + "#" + fs.Label, Text: c.spec, Feat: fs})
+		}
 	}
 	rj, err := randomJobs(r)
 	if err != nil {
